@@ -209,10 +209,13 @@ def _gb_check(case, ctx, route, rows, keys, shim):
                 gb.size(mask=m)
             else:
                 gb.sum(np.arange(case["n"], dtype=float))
+        has_null = any(r is None for r in rows)
+        if case["n"] > 0 and bool(gb.has_null_keys) != has_null:
+            raise Violation("has_null_keys", f"has_null_keys is {gb.has_null_keys} but {'a' if has_null else 'no'} row has a null key "
+                                             f"(key chunked: {gb.key_is_chunked})")
         codes = logical_codes(gb)
         labels = labels_from_index(gb.result_index)
         distinct = {r for r in rows if r is not None}
-        has_null = any(r is None for r in rows)
         nt = len(distinct) >= 2 and (has_null or route not in ("plain",) or len(case.get("keys", [0])) > 1)
         ctx.seen("gb", case, nt, [f"route:{route}", f"prior:{case.get('prior')}", f"chunked:{chunked0}", f"null:{has_null}", f"sort:{case['sort']}",
                                   "kc:" + str(case.get("kc"))] + [f"keytype:{k['t']}" for k in case.get("keys", [])])
